@@ -128,9 +128,9 @@ class GCPSampler:
                     num_nonzeros=min(ftmp, num_nonzeros),
                     num_zeros=min(ftmp, num_nonzeros, num_zeros),
                 )
-            elif isinstance(function_samples, int):
+            elif isinstance(function_samples, (int, np.integer)):
                 function_samples = StratifiedCount(
-                    num_nonzeros=function_samples, num_zeros=function_samples
+                    num_nonzeros=int(function_samples), num_zeros=int(function_samples)
                 )
             elif not isinstance(function_samples, StratifiedCount):
                 raise ValueError(
@@ -149,6 +149,8 @@ class GCPSampler:
             if function_samples is None:
                 tensor_size = prod(int(n) for n in data.shape)
                 function_samples = min(max(ceil(tensor_size / 10), 10**6), tensor_size)
+            if isinstance(function_samples, np.integer):
+                function_samples = int(function_samples)
             if not isinstance(function_samples, int):
                 raise ValueError(
                     "Uniform sampling only accepts integers for number of samples"
@@ -177,9 +179,9 @@ class GCPSampler:
                     num_nonzeros=int(min(gtmp, num_nonzeros)),
                     num_zeros=int(min(gtmp, num_nonzeros, num_zeros)),
                 )
-            elif isinstance(gradient_samples, int):
+            elif isinstance(gradient_samples, (int, np.integer)):
                 gradient_samples = StratifiedCount(
-                    num_nonzeros=gradient_samples, num_zeros=gradient_samples
+                    num_nonzeros=int(gradient_samples), num_zeros=int(gradient_samples)
                 )
             elif not isinstance(gradient_samples, StratifiedCount):
                 raise ValueError(
@@ -213,6 +215,8 @@ class GCPSampler:
                 gradient_samples = int(
                     min(max(1000, ceil(10 * tensor_size / max_iters)), tensor_size)
                 )
+            if isinstance(gradient_samples, np.integer):
+                gradient_samples = int(gradient_samples)
             if not isinstance(gradient_samples, int):
                 raise ValueError(
                     "Uniform sampling only accepts integers for number of samples"
